@@ -1,54 +1,20 @@
 /-
-  Properties/C07.lean — the filter is total.
+  Properties/C07.lean — the filter is total (module the check builds; the statements live in
+  C07Base.lean, NoEmptyStmt.lean and CleverefStmt.lean).
 
-  Proved: every non-expander stage is a total function whose internal loop never
-  runs out of its measure (scanner, blank-line removal, multi-language splitter);
-  phrase replacement and get_txt_pos are total by definition.
-
-  `C07_tex2txt_no_crash(_current)`: in the model every place where the Python code can raise
-  (an index or key that may be missing, `[-1]`/`[0]` of a list that may be empty) is an explicit
-  `Outcome.crash "<file:function:expression>"`.  For every source text, option record, file
-  system and fuel, the whole filter model ends in `ok`, in the documented `fatal` exit, or out
-  of fuel (the model of non-termination: self-referential definitions) — never in a crash,
-  except at the three sites of `allowedCrash`: the two markers of code that is not modelled
-  (cleveref) and `cap_first` on an empty text token, whose unreachability needs an invariant
-  on buffer order that the bundle does not carry (open obligation; tested on the
-  implementation).  Proved by the same induction on fuel as C01 (`Post` has a crash clause);
-  the table facts it needs are decided by the kernel on the tables translated from /repo.
+  * `C07_tex2txt_no_crash(_current)` (C07Base.lean, by the induction on fuel that also gives C01 and C03): for every
+    source text, option record, file system and fuel the filter model ends in `ok`, in the documented `fatal` exit, or
+    out of fuel — a crash (= an unhandled Python exception; every `x[k]`, `x[-1]`, `d[key]` that could raise is an
+    explicit crash value of the model) can only have one of the three sites of `allowedCrash`.
+  * `C07_no_capfirst_crash(_current)` (NoEmptyStmt.lean, a SECOND induction on fuel over the whole expander with an
+    invariant on buffer ORDER and positions, Proofs/NoEmpty*.lean): the third site, `cap_first` on an empty text token,
+    is unreachable for every input; `C07_tex2txt_crash_only_opaque(_current)`: a crash can only be one of the two
+    markers of code the translator does not recognise.
+  * `C07_no_opaque_module_current` (CleverefStmt.lean): the current tables contain no such module and no such handler
+    (package cleveref is modelled).
+  So, for the tables translated from the current /repo, the model of the filter raises no exception on any input; what
+  remains between this and the Python code is the correspondence (DESIGN.md 10.3).
 -/
-import YalafiVerif.Proofs.Scanner
-import YalafiVerif.Proofs.Utils
-import YalafiVerif.Proofs.Lines
-import YalafiVerif.Proofs.Inv.Tex2txt
-import YalafiVerif.Generated.WF
-namespace Yalafi
-
-/-- the scanner consumes the whole input with fuel `src.length` (every step advances) -/
-theorem C07_scan_total (T : Tables) (h : T.WFScan) (src : Str) : (scan T src).complete = true := by
-  have := (scanSteps_complete T h src src.length 0 src (Nat.le_refl _)).1
-  simpa [scan] using this
-
-theorem C07_removeLines_total (ts : List Tok) : (removeLines ts).isSome = true :=
-  removeLines_progress ts
-
-theorem C07_ml_total (toks : List Tok) (main : Str) (thresh : Nat) (lc : LangChange)
-    (h : LangChangeOk lc) : (getTxtPosML toks main thresh lc).isSome = true :=
-  getTxtPosML_total toks main thresh lc h
-
-/-- the filter model never raises, whatever the input (sites not covered: `allowedCrash`) -/
-theorem C07_tex2txt_no_crash (T : PTables) (hw : T.WFInv) (fuel : Nat) (latex : Str) (o : Options)
-    (multi : Bool) (thresh : Nat) (fs : FS) (site : String)
-    (h : tex2txt T fuel latex o multi thresh fs = .crash site) : site ∈ allowedCrash :=
-  tex2txt_crashSites T hw fuel latex o multi thresh fs site h
-
-/-- … in particular with the tables translated from the current /repo -/
-theorem C07_tex2txt_no_crash_current (fuel : Nat) (latex : Str) (o : Options) (multi : Bool) (thresh : Nat)
-    (fs : FS) (site : String)
-    (h : tex2txt Generated.theTables fuel latex o multi thresh fs = .crash site) : site ∈ allowedCrash :=
-  tex2txt_crashSites Generated.theTables Generated.wfInv fuel latex o multi thresh fs site h
-
-/-- the exception list is what the header says (a change of `allowedCrash` is visible here) -/
-example : allowedCrash = ["opaque module (not modelled)", "opaque handler (not modelled)",
-    "glossaries.py:cap_first:txt[0]"] := rfl
-
-end Yalafi
+import YalafiVerif.Properties.C07Base
+import YalafiVerif.Properties.NoEmptyStmt
+import YalafiVerif.Properties.CleverefStmt
